@@ -6,10 +6,7 @@ from .readerlib import both_modes, dump_dict, canon
 ID = 'C12'
 TARGETS = ['theories/Properties/C12.vo']
 THEOREMS = core.theorems_of(ID)
-LEVEL = ('the one-shot reader model is the loop over the incremental functions; proved: fragment-level read loop = flat read (Model/Frag.v), bytes_read grows by '
-         'exactly the bytes consumed per call; incremental model tied to parse_header/parse_start/parse_event/parse_metadata by per-call differential runs with '
-         'fragmenting readers; oracle on the real library: final incremental game = one-shot game, bytes_read = consumed - 15 after every call, frame count '
-         'monotone, rows of completed frames never change')
+LEVEL = ('proved (Properties/C12.v): every parse_event call only appends to every column, so the frames completed so far are a prefix of every later state and of the final game; the frame count never decreases; the consumed-byte count grows by exactly the bytes each call consumed; the one-shot reader is header + start + n single-event calls + a fixed epilogue, its game a function of the incrementally reached state; each API call and the whole one-shot read, run over ANY fragmentation schedule of the underlying stream (Model/Frag.v), return what the flat model returns; incremental model tied to parse_header/parse_start/parse_event/parse_metadata by per-call differential runs with fragmenting readers; oracle on the real library: final incremental game = one-shot game, bytes_read = consumed - 15 after every call, frame count monotone, rows of completed frames never change (one recorded known finding: pre-3.0 replay without Game End)')
 
 ROW = re.compile(r'^(.*)\[(\d+)\]=(.*)$')
 KNOWN_TAG = 'pre-3.0 replay without Game End: the last frame stays open in the incremental API'
